@@ -608,13 +608,74 @@ def dup_path_case():
     return p1, p2, 4.0
 
 
-def run_paths(rep, K, tmp, rng, n, secs, only=None):
+def is_zero_line(d):
+    return d[0] == 'L' and d[1] == d[2]
+
+
+def gen_zero_length_path_pair(rng):
+    """path1: a chain of 1..3 Line/Quadratic/Cubic segments with zero-length Lines inserted
+    (leading, at interior joints, several in a row — what "M 0,0 L 0,0 L 100,0" or an explicit
+    Line(p, p) leaves behind); path2: segments built through interior points of path1's proper
+    segments, optionally with a leading zero-length Line of its own"""
+    scale = rng.choice([1.0, 10.0, 100.0])
+    n = rng.randint(1, 3)
+    pts = [ic.rnd_c(rng, scale)]
+    real = []
+    for i in range(n):
+        nxt = pts[-1] + ic.unit(rng) * scale * rng.uniform(0.5, 1.5)
+        k = rng.choice(['L', 'L', 'Q', 'C'])
+        if k == 'L':
+            real.append(('L', pts[-1], nxt))
+        elif k == 'Q':
+            real.append(('Q', pts[-1], (pts[-1] + nxt) / 2 + ic.rnd_c(rng, 0.3 * scale), nxt))
+        else:
+            real.append(('C', pts[-1], pts[-1] + ic.rnd_c(rng, 0.4 * scale), nxt + ic.rnd_c(rng, 0.4 * scale), nxt))
+        pts.append(nxt)
+    where = rng.choice(['leading', 'interior', 'several', 'leading+interior'])
+    p1 = []
+    for i, d in enumerate(real):
+        z = ('L', pts[i], pts[i])
+        if i == 0 and where in ('leading', 'several', 'leading+interior'):
+            p1.append(z)
+            if where == 'several':
+                p1.append(z)
+        if i > 0 and where in ('interior', 'several', 'leading+interior'):
+            p1.append(z)
+        p1.append(d)
+    if not any(is_zero_line(d) for d in p1):
+        p1.insert(0, ('L', pts[0], pts[0]))
+    p2 = []
+    for j in range(rng.randint(1, 2)):
+        tgt = rng.choice(real)
+        s1 = ic.mkseg(tgt)
+        t1 = rng.uniform(0.25, 0.75)
+        P = s1.point(t1); tan = s1.derivative(t1)
+        if abs(tan) == 0:
+            continue
+        ang = math.radians(rng.choice([1, -1]) * rng.uniform(40, 90))
+        dirn = tan / abs(tan) * complex(math.cos(ang), math.sin(ang))
+        p2.append(ic.bezier_through(rng, rng.choice(['L', 'L', 'Q', 'C']), P, rng.uniform(0.3, 0.7), dirn, 0.4 * scale))
+    if not p2:
+        return None
+    if rng.random() < 0.4:
+        z = p2[0][1]
+        p2.insert(0, ('L', z, z))
+    return p1, p2, scale, where
+
+
+def run_paths(rep, K, tmp, rng, n, secs, only=None, zero_pairs=0):
     from svgpathtools import Path, Arc
     g4, g4meta, pcases = [], [], []
     stats = collections.Counter()
-    todo = list(only) if only else [dup_path_case() + (0.0,), dup_path_case() + (None,)]
+    todo = list(only) if only is not None else [dup_path_case() + (0.0,), dup_path_case() + (None,)]
     for i in range(n):
         todo.append(gen_path_pair(rng) + (None,))
+    for i in range(zero_pairs):
+        r = gen_zero_length_path_pair(rng)
+        if r:
+            p1d, p2d, scale, where = r
+            stats['zero-length-line paths: ' + where] += 1
+            todo.append((p1d, p2d, scale, None)); todo.append((p2d, p1d, scale, None))     # both operands
     for p1d, p2d, scale, tol in todo:
         path1 = Path(*[ic.mkseg(d) for d in p1d]); path2 = Path(*[ic.mkseg(d) for d in p2d])
         if path1 == path2:
@@ -628,6 +689,16 @@ def run_paths(rep, K, tmp, rng, n, secs, only=None):
                   'tol': tol, 'path1_repr': repr(path1), 'path2_repr': repr(path2)}
         if st == 'timeout':
             stats['timeouts'] += 1; continue
+        haszero = any(is_zero_line(d) for d in p1d + p2d)
+        if haszero:
+            stats['zero-length-line path calls'] += 1
+        if st == 'exc' and haszero and isinstance(val, AssertionError):
+            # Line.intersect / bezier_by_line_intersections assert start != end: a separate class
+            # (nothing is returned, so C11 claims nothing); counted and reported, not a C11 violation
+            stats['zero-length-line: AssertionError on a degenerate segment (no result, nothing claimed)'] += 1
+            continue
+        if haszero and st == 'ok' and val:
+            stats['zero-length-line path calls returning entries'] += 1
         if st == 'exc':
             aa = any(arcarc_tolerated(a, b) for a in p1d for b in p2d)
             if aa:
@@ -719,7 +790,12 @@ def run(rep, tier, seed, replay=None):
         for k_, v_ in tstats.items():
             stats[k_] = stats.get(k_, 0) + v_
         nontriv += tnontriv; nq += tq; nb += tb
-        e4 = e4 + e5
+        # paths containing zero-length Lines (again drawn last): T coherence for both operands
+        zstats, n6, e6 = run_paths(rep, K, tmp, rng, 0, secs, only=[], zero_pairs=(12 if quick else 300) * boost)
+        for k_, v_ in zstats.items():
+            pstats[k_] = pstats.get(k_, 0) + v_
+        n4 += n6
+        e4 = e4 + e5 + e6
         for e in e1 + e2 + e3 + e4:
             rep.violation('C11 model-tie case file failed to evaluate', {'kind': 'cases', 'error': e},
                           found_input=False, key='cases-error')
